@@ -23,7 +23,7 @@ var errCarrierReset = errors.New("websocket: close 1006 (abnormal closure): unex
 // stream from the client (chunks arrive as the proxy relays them) and a byte stream to the client.
 type fakeConn struct {
 	name      string
-	in        chan []byte // upstream chunks; closed = the carrier was cut / ended by the peer
+	in        chan []byte   // upstream chunks; closed = the carrier was cut / ended by the peer
 	eofc      chan struct{} // alternative cut signal for feeders that race with the cut (C01)
 	rbuf      []byte
 	out       chan []byte // downstream writes, in order (nil: recorded in Out only)
